@@ -133,11 +133,11 @@ func checkTermSpecsOpt(c *Ctx, rule, dir string, specs []termSpec, noteExtras bo
 			r.Undecided(rule, dir+"."+sp.fn, "definition", dir, "anchor function not found (renamed or removed): "+sp.why)
 			continue
 		}
-		nf := ir.String(pkgPath, n.Func(fn))
+		nf := canonShape(ir.String(pkgPath, n.Func(fn)))
 		pos := c.Pos(m.Fset, fn.Decl.Pos())
 		ok = false
 		for _, a := range sp.accept {
-			if specRegexp(a).MatchString(nf) {
+			if specRegexp(canonShape(a)).MatchString(nf) {
 				ok = true
 			}
 		}
